@@ -1,0 +1,24 @@
+//go:build verif
+
+package bmc
+
+import (
+	"time"
+
+	"github.com/gebn/bmc/internal/pkg/transport"
+
+	"github.com/cenkalti/backoff/v4"
+)
+
+// NewV2SessionlessTransportVerif builds the same object DialV2 returns, over a
+// caller-supplied transport. If b is non-nil it replaces the default
+// exponential back-off shared by the connection and the sessions created from
+// it. This file only exists under the verif build tag; it is used by the
+// verification harness to drive the library over an in-memory transport.
+func NewV2SessionlessTransportVerif(t transport.Transport, timeout time.Duration, b backoff.BackOff) *V2SessionlessTransport {
+	s := newV2SessionlessTransport(t, &dialConfig{timeout: timeout})
+	if b != nil {
+		s.V2Sessionless.backoff = b
+	}
+	return s
+}
